@@ -66,8 +66,8 @@ struct Layout<smooth::SO3<S>> {
   static constexpr PartDesc parts[1] = {{"quat", 0, 4}};
   static constexpr int action_dim = 3;
   template<int I, class V>
-  static auto get(V& v) {
-    return v.quat();
+  static auto get(V&& v) {
+    return std::forward<V>(v).quat();
   }
 };
 template<class S>
@@ -77,9 +77,9 @@ struct Layout<smooth::SE2<S>> {
   static constexpr PartDesc parts[2] = {{"r2", 0, 2}, {"so2", 2, 2}};
   static constexpr int action_dim = 2;
   template<int I, class V>
-  static auto get(V& v) {
-    if constexpr (I == 0) return v.r2();
-    else return v.so2();
+  static auto get(V&& v) {
+    if constexpr (I == 0) return std::forward<V>(v).r2();
+    else return std::forward<V>(v).so2();
   }
 };
 template<class S>
@@ -89,9 +89,9 @@ struct Layout<smooth::SE3<S>> {
   static constexpr PartDesc parts[2] = {{"r3", 0, 3}, {"so3", 3, 4}};
   static constexpr int action_dim = 3;
   template<int I, class V>
-  static auto get(V& v) {
-    if constexpr (I == 0) return v.r3();
-    else return v.so3();
+  static auto get(V&& v) {
+    if constexpr (I == 0) return std::forward<V>(v).r3();
+    else return std::forward<V>(v).so3();
   }
 };
 template<class S>
@@ -101,11 +101,11 @@ struct Layout<smooth::Galilei<S>> {
   static constexpr PartDesc parts[4] = {{"r3_v", 0, 3}, {"r3_p", 3, 3}, {"r1_t", 6, 1}, {"so3", 7, 4}};
   static constexpr int action_dim = 4;
   template<int I, class V>
-  static auto get(V& v) {
-    if constexpr (I == 0) return v.r3_v();
-    else if constexpr (I == 1) return v.r3_p();
-    else if constexpr (I == 2) return v.r1_t();
-    else return v.so3();
+  static auto get(V&& v) {
+    if constexpr (I == 0) return std::forward<V>(v).r3_v();
+    else if constexpr (I == 1) return std::forward<V>(v).r3_p();
+    else if constexpr (I == 2) return std::forward<V>(v).r1_t();
+    else return std::forward<V>(v).so3();
   }
 };
 template<class S, int K>
@@ -123,10 +123,10 @@ struct Layout<smooth::SE_K_3<S, K>> {
   static constexpr auto parts = make_parts();
   static constexpr int action_dim = 0;
   template<int I, class V>
-  static auto get(V& v) {
-    if constexpr (I < K) return v.template r3<I>();
-    else if constexpr (I == K) return v.so3();
-    else return v.r3(K - 1);
+  static auto get(V&& v) {
+    if constexpr (I < K) return std::forward<V>(v).template r3<I>();
+    else if constexpr (I == K) return std::forward<V>(v).so3();
+    else return std::forward<V>(v).r3(K - 1);
   }
 };
 template<class... Gs>
@@ -146,8 +146,8 @@ struct Layout<smooth::Bundle<Gs...>> {
   static constexpr auto parts = make_parts();
   static constexpr int action_dim = 0;
   template<int I, class V>
-  static auto get(V& v) {
-    return v.template part<I>();
+  static auto get(V&& v) {
+    return std::forward<V>(v).template part<I>();
   }
 };
 
@@ -279,10 +279,15 @@ struct T16 {
   }
 
   template<class V, class F>
-  static void with_part(V& v, int part, F&& f) {
+  static void with_part(V& v, int part, F&& f, bool from_temporary = false) {
     if constexpr (L::n > 0) {
       [&]<std::size_t... I>(std::index_sequence<I...>) {
-        (void)((part == (int)I ? (f(L::template get<(int)I>(v), std::integral_constant<int, (int)I>{}), true) : false) || ...);
+        (void)((part == (int)I
+                  ? ((from_temporary ? f(L::template get<(int)I>(std::decay_t<V>(v)), std::integral_constant<int, (int)I>{})
+                                     : f(L::template get<(int)I>(v), std::integral_constant<int, (int)I>{})),
+                     true)
+                  : false) ||
+               ...);
       }(std::make_index_sequence<(std::size_t)L::n>{});
     }
   }
@@ -394,6 +399,30 @@ struct T16 {
           const int off = L::parts[(std::size_t)part].off, len = L::parts[(std::size_t)part].len;
           S* mp = mi(c, r) + off;
           with_mut(c, [&](auto& m) {
+            // a sub-sub-part through a chain of temporaries: m.part<i>().so3() = ..., Map<G>(p).so3().quat() = ...
+            bool chained = false;
+            if (k.id == K_PART_ASSIGN && (k.idx & 8)) {
+              with_part(m, part, [&](auto pv, auto idx) {
+                using PV = decltype(pv);
+                constexpr int I = decltype(idx)::value;
+                if constexpr (part_kind<PV>() == 0) {
+                  if constexpr (requires { pv.so3(); pv.r3(); }) {
+                    const smooth::SO3<S> e = rand_elem<smooth::SO3<S>>(in);
+                    allow(c, off + 3, off + 7, true);
+                    for (int i = 0; i < 4; ++i) mp[3 + i] = e.coeffs()(i);
+                    L::template get<I>(m).so3() = e;
+                    chained = true;
+                  } else if constexpr (requires { pv.so2(); pv.r2(); }) {
+                    const smooth::SO2<S> e = rand_elem<smooth::SO2<S>>(in);
+                    allow(c, off + 2, off + 4, true);
+                    for (int i = 0; i < 2; ++i) mp[2 + i] = e.coeffs()(i);
+                    L::template get<I>(m).so2() = e;
+                    chained = true;
+                  }
+                }
+              });
+            }
+            if (chained) return;
             with_part(m, part, [&](auto pv, auto) {
               using PV = decltype(pv);
               constexpr int kind = part_kind<PV>();
@@ -491,7 +520,7 @@ struct T16 {
                   pv.coeffs()(i) = x;
                 }
               }
-            });
+            }, (k.idx & 16) != 0);
           });
         }
         break;
